@@ -61,6 +61,12 @@ def get_dimensionality(
     """
     system_1x = system
     pbc = system_1x.get_pbc()
+
+    # The displacement tensor is calculated with a finite cutoff, which
+    # requires that the atoms are inside the cell along the periodic directions.
+    if np.any(pbc):
+        system_1x = system.copy()
+        system_1x.wrap()
     num_1x = system_1x.get_atomic_numbers()
     cell_1x = system_1x.get_cell()
 
@@ -73,7 +79,7 @@ def get_dimensionality(
 
     # 1x1x1 system
     if dist_matrix_radii_mic_1x is None:
-        pos_1x = system.get_positions()
+        pos_1x = system_1x.get_positions()
         _, dist_matrix_mic_1x = get_displacement_tensor(
             pos_1x,
             cell_1x,
@@ -101,7 +107,7 @@ def get_dimensionality(
         if n_pbc > 0:
             repeats = np.array([1, 1, 1])
             repeats[pbc] = 2
-            system_2x = system.repeat(repeats)
+            system_2x = system_1x.repeat(repeats)
             pos_2x = system_2x.get_positions()
             cell_2x = system_2x.get_cell()
             _, dist_matrix_mic_2x = get_displacement_tensor(
